@@ -3,8 +3,10 @@ package main
 import (
 	"encoding/json"
 	"fmt"
+	"os"
 	"runtime"
 	"sort"
+	"strings"
 	"sync"
 	"sync/atomic"
 	"time"
@@ -68,6 +70,47 @@ func feeID(f *bt.Fee) (int64, bool) {
 		return id, false
 	}
 	return id, true
+}
+
+// waitOrDeadlock waits for the workers of a history. Goroutines cannot be
+// killed, so when they do not finish within a generous bound the goroutine
+// dump is examined: if every remaining worker has been blocked in a sync
+// primitive for minutes, that is a deadlock (operations that never return) and
+// is reported with the dump; anything else is inconclusive. Either way the
+// child ends (the violation is already on disk for the parent).
+func waitOrDeadlock(c *mon.Ctx, wg *sync.WaitGroup, what string) {
+	done := make(chan struct{})
+	go func() { wg.Wait(); close(done) }()
+	select {
+	case <-done:
+		return
+	case <-time.After(100 * time.Second):
+	}
+	buf := make([]byte, 1<<20)
+	buf = buf[:runtime.Stack(buf, true)]
+	dump := string(buf)
+	blocked, other := 0, 0
+	for _, g := range strings.Split(dump, "\n\n") {
+		if !strings.Contains(g, "main.c18") || strings.Contains(g, "waitOrDeadlock") {
+			continue
+		}
+		head, _, _ := strings.Cut(g, "\n")
+		if strings.Contains(head, "minutes]") && (strings.Contains(head, "sync.") || strings.Contains(head, "semacquire")) {
+			blocked++
+		} else if !strings.Contains(head, "chan receive") && !strings.Contains(head, "semacquire") {
+			other++
+		}
+	}
+	if blocked > 0 && other == 0 {
+		if len(dump) > 6000 {
+			dump = dump[:6000]
+		}
+		c.Violationf("C18:operations-never-return:"+what, "%d worker goroutines of a %s history have been blocked in a lock for over a minute and none is running: deadlock\n%s", blocked, what, dump)
+	} else {
+		c.Fault("a " + what + " history did not finish within 100 s, but its goroutines are not all blocked (load?)")
+	}
+	c.Flush()
+	os.Exit(3)
 }
 
 type c18Recorder struct {
@@ -384,7 +427,7 @@ func c18FeeQuoteHistory(c *mon.Ctx, h *c18Hist) {
 		}(g)
 	}
 	close(start)
-	wg.Wait()
+	waitOrDeadlock(c, &wg, "feequote")
 	c.Eval(int64(len(rec.ops)))
 	// (c) every value read was written by someone
 	written := map[string]map[int64]bool{}
@@ -579,7 +622,7 @@ func c18EngineHistory(c *mon.Ctx, h *c18Hist) {
 		}(g)
 	}
 	close(start)
-	wg.Wait()
+	waitOrDeadlock(c, &wg, "engine")
 	c.Eval(done.Load())
 	c.CountN("engine:concurrent-executions", done.Load())
 	c.Count(fmt.Sprintf("gomaxprocs:%d", h.Procs))
